@@ -283,18 +283,20 @@ theorem frames_w2 (w : List Chunk) (x : Chunk) (h : x.second = true) : frames (w
 theorem frames_w1 (w : List Chunk) (x : Chunk) (h : x.second = false) : frames (w ++ [x]) = frames w := by
   simp [frames, h]
 
-theorem zInv_step (v : Variant) (cfg : Cfg) (s : State) (t : Tid) (hvz : v.compressUnderLock = true)
-    (B : Base v cfg s) (Z : ZInv v cfg s) : ZInv v cfg (step v cfg s t) := by
+/-- (needs only the lock and the call invariants, so that it serves the general socket of
+    `Model/ThreadsN.lean` as well) -/
+theorem zInv_stepLC (v : Variant) (cfg : Cfg) (s : State) (t : Tid) (hvz : v.compressUnderLock = true)
+    (L : LockInv v cfg s) (C : CallInv v cfg s) (Z : ZInv v cfg s) : ZInv v cfg (step v cfg s t) := by
   rcases step_cases v cfg s t with e | ⟨c, st, r, hc, hr, hb, e⟩
   · rw [e]; exact Z
   · rw [e]
     have hh := current_not_halted hc
     have hv : view v cfg (s.th t) = st :: r := by rw [view_of_current hc, hr]
-    have d : disc (st :: r) = true := hv ▸ B.L.disc t
+    have d : disc (st :: r) = true := hv ▸ L.disc t
     have z : zdisc cfg.noTakeover (st :: r) = true := hv ▸ Z.dz t
     have m := exec_moves v t st r s.sh c
     have hi := exec_idx v t st r s.sh c
-    obtain ⟨call, hcall, hsrc, _, _⟩ := B.C.cur t c hc
+    obtain ⟨call, hcall, hsrc, _, _⟩ := C.cur t c hc
     rw [hr] at hsrc
     -- when `t` holds the lock no other thread is using the compression object
     have others : holds (st :: r) = true → ∀ u, u ≠ t → zpos (view v cfg (s.th u)) = 0 := by
@@ -302,9 +304,9 @@ theorem zInv_step (v : Variant) (cfg : Cfg) (s : State) (t : Tid) (hvz : v.compr
       cases hz : zpos (view v cfg (s.th u)) with
       | zero => rfl
       | succ k =>
-        have hu' := zpos_holds (B.L.disc u) (Z.dz u) (by rw [hz]; simp)
-        have h1 := (B.L.holder t).mp (hv ▸ hl)
-        have h2 := (B.L.holder u).mp hu'
+        have hu' := zpos_holds (L.disc u) (Z.dz u) (by rw [hz]; simp)
+        have h1 := (L.holder t).mp (hv ▸ hl)
+        have h2 := (L.holder u).mp hu'
         rw [h1] at h2; exact absurd (Option.some.inj h2).symm hu
     have others_at : holds (st :: r) = true → ∀ u c2, u ≠ t → (s.th u).current v cfg = some c2 → zpos c2.rest = 0 := by
       intro hl u c2 hu hc2
@@ -588,6 +590,10 @@ theorem zInv_step (v : Variant) (cfg : Cfg) (s : State) (t : Tid) (hvz : v.compr
             rw [setTh_sh, hfr, hq]
             exact ⟨hb1, hb3⟩
       | _ => exact absurd hq (by simp [quiet])
+
+theorem zInv_step (v : Variant) (cfg : Cfg) (s : State) (t : Tid) (hvz : v.compressUnderLock = true)
+    (B : Base v cfg s) (Z : ZInv v cfg s) : ZInv v cfg (step v cfg s t) :=
+  zInv_stepLC v cfg s t hvz B.L B.C Z
 
 theorem zInv_run (v : Variant) (cfg : Cfg) (s : State) (sched : List Tid) (hvz : v.compressUnderLock = true)
     (B : Base v cfg s) (Z : ZInv v cfg s) : ZInv v cfg (run v cfg s sched) := by
